@@ -413,8 +413,19 @@ def job_cli(job):
         prog, cores, mode = spec
         a = argv_for(prog, cores, mode)
         cmd = [sys.executable, "-c", "import sys; sys.argv=sys.argv[1:]; from mchap.application.cli import main; main()"] + a
-        p = subprocess.run(cmd, capture_output=True, text=True, timeout=1500, env=dict(os.environ))
-        return spec, p.returncode, p.stdout, p.stderr
+        import signal
+
+        p = subprocess.Popen(cmd, stdout=subprocess.PIPE, stderr=subprocess.PIPE, text=True, env=dict(os.environ), start_new_session=True)
+        try:
+            out, err = p.communicate(timeout=240)
+        except subprocess.TimeoutExpired:
+            try:
+                os.killpg(p.pid, signal.SIGKILL)  # the whole process group: pool workers and manager too
+            except ProcessLookupError:
+                pass
+            out, err = p.communicate()
+            return spec, "timeout", out or "", err or ""
+        return spec, p.returncode, out, err
 
     with ThreadPoolExecutor(max_workers=4) as ex:
         results = list(ex.map(launch, runs))
@@ -426,6 +437,9 @@ def job_cli(job):
         tag = "cli|%s|cores=%d|%s" % (prog, cores, mode)
         recs = stddata.records(out)
         hdr = [l for l in stddata.header(out) if not l.startswith("##fileDate") and not l.startswith("##commandline")]
+        if rc == "timeout":
+            r.violation(tag + "|no-exit", "the process did not exit within 240 s (%d records written)" % len(recs), payload)
+            continue
         if mode == "fail":
             if rc == 0:
                 r.violation(tag, "a locus failed in a worker but the process exited 0 with %d records" % len(recs), payload)
